@@ -480,6 +480,11 @@ def _render(q):
     return conds, eff, ret
 
 
+def same_class_getter(call, g):
+    """inlining filter: only `return <expr>` methods of the same class called on self (self.eof(), self.peek())"""
+    return g.cls is not None
+
+
 def cases(project, func, pure=(), inline=False, select=None, unroll=False):
     _CTX.append((project, func))
     try:
@@ -927,7 +932,44 @@ def _leaves(key):
     return set(_re.findall(r'_(?:acc|fin)_\w+', key))
 
 
-def check_rows(have, want, same_locals=False):
+def _fresh_input_atom(key, fresh):
+    """the test `key` is a pure expression over inputs and reads an input that the reviewed table mentions nowhere.
+    fresh = {'params': names of the function's own parameters, 'text': every condition and outcome of the reviewed table}"""
+    import re as _re
+    if key.startswith('int(') or '<' in key and _re.search(r'<[A-Za-z_]', key) or _re.search(r'_(?:acc|fin|h\d*|el\w*)_|\bobj\d+|\bold\d*\(|__\d+', key):
+        return False
+    try:
+        e = ast.parse(key, mode='eval').body
+    except SyntaxError:
+        return False
+    text = fresh['text']
+    params = {q for q in fresh['params'] if _re.search(r'(?<![\w.])%s(?!\w)' % _re.escape(q), text)}      # the reviewed function has it too
+    bound = {n.id for n in ast.walk(e) if isinstance(n, ast.Name) and isinstance(n.ctx, ast.Store)}
+    hit = False
+    for n in ast.walk(e):
+        if isinstance(n, ast.Call):
+            fn = n.func
+            name = fn.id if isinstance(fn, ast.Name) else (fn.attr if isinstance(fn, ast.Attribute) else None)
+            if name not in ('any', 'all', 'len', 'isinstance', 'bool', 'str', 'int', 'get', 'lower', 'upper', 'startswith', 'endswith', 'strip', 'min', 'max', 'sorted', 'list', 'tuple', 'set'):
+                return False            # a project function: its result is not an input
+        if isinstance(n, ast.Name) and isinstance(n.ctx, ast.Load) and n.id not in params and n.id not in bound \
+                and n.id not in ('any', 'all', 'len', 'isinstance', 'bool', 'str', 'int', 'min', 'max', 'sorted', 'list', 'tuple', 'set', 'True', 'False', 'None', 'dict', 'float', 'bytes'):
+            return False                # a local / closure / global value
+        if isinstance(n, ast.Attribute) and isinstance(n.value, ast.Name) and n.value.id in params:
+            path = '%s.%s' % (n.value.id, n.attr)
+            if not _re.search(r'(?<![\w.])%s(?!\w)' % _re.escape(path), text):
+                hit = True
+        if isinstance(n, ast.Call) and isinstance(n.func, ast.Attribute) and n.func.attr == 'get' and n.args and isinstance(n.args[0], ast.Constant) \
+                and isinstance(n.args[0].value, str) and repr(n.args[0].value) not in text and '"%s"' % n.args[0].value not in text:
+            root = n.func.value
+            while isinstance(root, ast.Attribute):
+                root = root.value
+            if isinstance(root, ast.Name) and root.id in params:
+                hit = True
+    return hit
+
+
+def check_rows(have, want, same_locals=False, fresh=None):
     """compare the rows of one segment with the reviewed ones
        -> ('ok', n) | ('differs', [(want conds, want outcome, have conds, have outcome)]) | ('unknown', why)
     Both tables partition the same space of assignments.  A path of the analysed tree and a reviewed row that are
@@ -970,24 +1012,51 @@ def check_rows(have, want, same_locals=False):
         hv = set()
         for hd, _, _ in H:
             hv |= set(hd)
-    if hv - vocab:
-        return 'unknown', 'tests outside the reviewed vocabulary: %s' % sorted(hv - vocab)[:4]
+    projected = set()
+    if hv - vocab and fresh is not None:
+        # A test that reads an input the reviewed function never consulted (a field of a parameter, an option key that occurs
+        # nowhere in the reviewed table): no reviewed test constrains that input, so for every reviewed case either outcome of the
+        # new test is possible -- the path is compared without it.  (A test that only mentions reviewed inputs may be another
+        # spelling of a reviewed test: nothing is concluded from it.)
+        for k in sorted(hv - vocab):
+            if _fresh_input_atom(k, fresh):
+                projected.add(k)
+        if projected:
+            H = [({k: v for k, v in hd.items() if k not in projected}, hc, ho) for hd, hc, ho in H]
+            hv -= projected
+    # A path that tests something outside the reviewed vocabulary is not compared (the new test may be another spelling of a
+    # reviewed one); the other paths describe exactly the inputs that satisfy their reviewed tests and are compared as usual.
+    foreign = hv - vocab
+    partial = bool(foreign or projected)
 
     def consistent(a, b):
         return all((a[k] & b[k]) for k in a if k in b)
     differs = []
+    outside = None
     for hd, hc, ho in H:
         if any(not v for v in hd.values()):
             continue            # contradictory path
-        cons = [(wc, wo) for wd, wc, wo in W if consistent(hd, wd)]
+        if foreign & set(hd):
+            continue
+        cons = [(wd, wc, wo) for wd, wc, wo in W if consistent(hd, wd)]
         if not cons:
-            return 'unknown', 'path outside the reviewed cases: %s' % hc
-        for wc, wo in cons:
+            outside = outside or hc
+            continue
+        if partial and any(not set(wd) <= set(hd) for wd, _, _ in cons):
+            # Some paths of this function could not be compared (or a test was projected away): the keys of the two tables
+            # may then be spelled differently for the same fact (another snapshot numbering after a helper was extracted), so
+            # a path is only compared with reviewed cases all of whose tests it makes itself.
+            continue
+        for wd, wc, wo in cons:
             if wo != ho:
                 differs.append((wc, wo, hc, ho))
                 break
     if differs:
         return 'differs', differs
+    if foreign:
+        return 'unknown', 'tests outside the reviewed vocabulary: %s' % sorted(foreign)[:4]
+    if outside is not None:
+        return 'unknown', 'path outside the reviewed cases: %s' % outside
     for wd, wc, wo in W:
         if not any(consistent(hd, wd) for hd, hc, ho in H):
             return 'unknown', 'reviewed case not realised: %s -> %s' % (wc, wo)
